@@ -34,7 +34,7 @@ def load_corpus(pid):
 
 
 HOOK_COMMITS = ["29e0810", "739e797", "cf39cf9", "652b91e", "e71d18b", "87e24fd", "a0b177c", "d307356", "a2cf7a8", "32ea923",
-                "c3212bb", "2017279", "f82d6ac", "f4f6e91", "3d9871e", "eae7527", "430b815", "50578be", "8cabe9e", "dbfd1e8", "b5be554", "2061294", "5e81022", "fbbe690"]
+                "c3212bb", "2017279", "f82d6ac", "f4f6e91", "3d9871e", "eae7527", "430b815", "50578be", "8cabe9e", "dbfd1e8", "b5be554", "2061294", "5e81022", "fbbe690", "b82c48c"]
 NOT_CLAIMED = {}
 
 
@@ -1772,7 +1772,7 @@ class C14(Spec):
     pid = "C14"
     coq_files = ["Properties/C14.v"]
     theorems = ["C14_string_or_vec_roundtrip", "C14_audit_entry_roundtrip", "C14_exemption_roundtrip",
-                "C14_wildcard_entry_roundtrip", "C14_criteria_entry_roundtrip", "C14_tidy_is_canonical", "C14_policy_key_roundtrip", "C14_policy_keys_never_collide"]
+                "C14_wildcard_entry_roundtrip", "C14_criteria_entry_roundtrip", "C14_policy_entry_roundtrip", "C14_tidy_is_canonical", "C14_policy_key_roundtrip", "C14_policy_keys_never_collide"]
     level_text = ("Theorems about the model of cargo-vet's own (de)serialisation layer over an abstract TOML value, for ALL entries: "
                   "string_or_vec, the AuditEntry<->AuditEntryAll conversion (kind fields, importable default), exemptions (suggest "
                   "default), wildcard entries (renew), criteria entries (skip-if-empty lists, optional fields) decode what they encode; "
@@ -1793,7 +1793,7 @@ class C14(Spec):
     thorough_n = 2000
 
     def model_modules_paths(self):
-        return ["ShowSerde"]
+        return ["ShowSerde", "ShowSerdePolicy"]
 
     def gen_cases(self, rng, n):
         return [gen.gen_serde_case(rng, f"d{i}") for i in range(n)]
@@ -1901,6 +1901,30 @@ class C14(Spec):
                     else:
                         real.append([jk, ["str", str(tk(jv))]])
                 expect[key] = (real, cid, case)
+            # ---- model tie: policy entries (absent vs present-and-empty criteria lists, dependency-criteria map)
+            for k, ent in enumerate(o.get("policy_entries", [])[:12]):
+                t = ent["typed"]
+
+                def OL(x):
+                    return "None" if x is None else f"(Some {L(x)})"
+                ob = "None" if t["audit_as"] is None else f"(Some {'true' if t['audit_as'] else 'false'})"
+                dep = "[" + "; ".join(f"({tk(d[0])}%N, {L(d[1])})" for d in t["dep"]) + "]"
+                pkey2 = f"{cid}#pol{k}"
+                exprs.append((pkey2, f"sptable (enc_policy (Build_policy_entry {ob} {OL(t['criteria'])} {OL(t['dev'])} {dep} {OPT(t['notes'])}))"))
+                real = []
+                for jk, jv in (ent["json"] or {}).items():
+                    if jv is None:
+                        continue
+                    if isinstance(jv, bool):
+                        real.append([jk, ["bool", "1" if jv else "0"]])
+                    elif isinstance(jv, list):
+                        real.append([jk, ["arr"] + [str(tk(x)) for x in jv]])
+                    elif isinstance(jv, dict):
+                        real.append([jk, ["map"] + [["e", str(tk(dk)), (["arr"] + [str(tk(x)) for x in dv]) if isinstance(dv, list) else ["str", str(tk(dv))]]
+                                                    for dk, dv in jv.items()]])
+                    else:
+                        real.append([jk, ["str", str(tk(jv))]])
+                expect[pkey2] = (real, cid, case)
             # ---- model tie: the keys of the [policy] table as written vs the model's key encoding
             if o.get("policy_typed") and flags["parse_back"] == "ok":
                 def CH(s_):
@@ -1920,7 +1944,7 @@ class C14(Spec):
                 policy_expect[pkey] = (real_keys, len(o["policy_typed"]), cid, case)
             if len(res["samples"]) < 2:
                 res["samples"].append({"id": cid, "audits_toml_written": o["written"]["audits"][:600], "observation": o["obs"]})
-        model = vetlib.run_model(exprs, os.path.join(work, "model"), ["Base", "Extracted", "Show", "Serde", "ShowSerde"]) if model_ok else {}
+        model = vetlib.run_model(exprs, os.path.join(work, "model"), ["Base", "Extracted", "Show", "Serde", "ShowSerde", "SerdePolicy", "ShowSerdePolicy"]) if model_ok else {}
         for pkey, (real_keys, ntyped, cid, case) in policy_expect.items():
             m = model.get(pkey)
             if m is None or real_keys is None:
